@@ -297,3 +297,56 @@ func NormHeader(h http.Header) map[string]string {
 	}
 	return out
 }
+
+// CorpusOpts shapes the i-th bundle of the shared C03/C04 corpus.
+func CorpusOpts(g *mon.Rand, i int, thorough bool, certs []*certurl.AugmentedCertificate) BundleOpts {
+	o := BundleOpts{Version: version.VersionB2, Certs: certs}
+	if i%2 == 1 {
+		o.Version = version.VersionB1
+	}
+	switch {
+	case i%40 < 2:
+		o.NEx = 0
+	case i%40 < 30:
+		o.NEx = 1 + g.Intn(8)
+	case i%40 < 38:
+		o.NEx = 20 + g.Intn(21) // crosses the 23/24 head boundary of the responses array and index map
+	default:
+		o.NEx = 9 + g.Intn(10)
+	}
+	if thorough && i%500 == 7 {
+		o.NEx = 250 + g.Intn(12) // crosses 255/256
+	}
+	if i%97 == 5 {
+		o.Big = 1 + g.Intn(2)
+		if o.NEx < o.Big+1 {
+			o.NEx = o.Big + 1
+		}
+	}
+	o.Primary = g.Bool()
+	o.Manifest = g.Chance(1, 3)
+	o.Signatures = g.Chance(1, 4)
+	if o.Version == version.VersionB1 && g.Chance(1, 3) {
+		o.VariantSets = 1 + g.Intn(2)
+		o.MultiKey = g.Chance(1, 4)
+	}
+	return o
+}
+
+// ForceOrderProbe adds two exchanges whose raw-string order and encoded-key
+// order disagree (the longer URL sorts first as a string, last as CBOR).
+func ForceOrderProbe(g *mon.Rand, b *bundle.Bundle) {
+	have := map[string]bool{}
+	for _, e := range b.Exchanges {
+		have[e.Request.URL.String()] = true
+	}
+	for _, s := range []string{"https://probe.example/zz", "https://probe.example/a-much-longer-path-than-the-other-one"} {
+		if have[s] {
+			continue
+		}
+		u, _ := url.Parse(s)
+		e := &bundle.Exchange{Request: bundle.Request{URL: u, Header: http.Header{}}, Response: bundle.Response{Status: 200, Header: http.Header{"content-type": {"text/plain"}}, Body: []byte(s)}}
+		pos := g.Intn(len(b.Exchanges) + 1)
+		b.Exchanges = append(b.Exchanges[:pos], append([]*bundle.Exchange{e}, b.Exchanges[pos:]...)...)
+	}
+}
